@@ -1038,6 +1038,41 @@ struct Gen {
                 op(OP_DRAIN);
         }
 
+        // C12, enumerated part: a small base plan (chosen by idx / 256) and ONE fault whose position is idx % 256:
+        // a run of 1..3 refusals starting at the k-th write attempt (k < 160) or at the k-th read of a waiting byte
+        void gen_ops_c12_enum(uint64_t variant)
+        {
+                std::vector<int> evs;
+                for (size_t i = 0; i < p.cmds.size(); i++)
+                        if (p.cmds[i].ev)
+                                evs.push_back((int)i);
+                int run = 1 + (int)r.below(3);
+                bool trig_first = !evs.empty() && r.chance(0.7);
+                int ev = evs.empty() ? 0 : evs[r.below(evs.size())];
+                int evt = r.coin() ? CT_READ : CT_TEST;
+                bytes l1 = gen_line(), l2 = r.coin() ? gen_line() : bytes();
+                int when = (int)r.below(3);
+                // everything above is drawn before the variant is used: all variants share the base plan
+                if (variant < 160)
+                        op(OP_TX_REFUSE, run, r.coin() ? 0 : -1, (int64_t)variant);
+                else
+                        op(OP_RX_STALL, run, (int64_t)(variant - 160));
+                if (trig_first && when == 0)
+                        op(OP_TRIG, ev, evt);
+                in_op(l1);
+                if (trig_first && when == 1) {
+                        op(OP_SVC, 3);
+                        op(OP_TRIG, ev, evt);
+                }
+                op(OP_QUIESCE, 200000);
+                if (trig_first && when == 2)
+                        op(OP_TRIG, ev, evt);
+                if (!l2.empty())
+                        in_op(l2);
+                op(OP_QUIESCE, 200000);
+                op(OP_DRAIN);
+        }
+
         // ------------------------------------------------------------ C20: whole lines, holds released at once
         void gen_ops_c20()
         {
@@ -1394,7 +1429,7 @@ void knobs_for(const std::string &prop, Knobs &K, Rng &r)
 
 } // namespace
 
-uint64_t gen_enum_count(const std::string &prop) { return prop == "C10" ? 63 * 10 * 6 : 0; }
+uint64_t gen_enum_count(const std::string &prop) { return prop == "C10" ? 63 * 10 * 6 : prop == "C12" ? 256 * 100 : 0; }
 
 Plan gen_plan(const std::string &prop, uint64_t seed, uint64_t idx, int qcap)
 {
@@ -1402,7 +1437,9 @@ Plan gen_plan(const std::string &prop, uint64_t seed, uint64_t idx, int qcap)
         uint64_t ph = 1469598103934665603ULL;
         for (char ch : prop)
                 ph = (ph ^ (unsigned char)ch) * 1099511628211ULL;
-        Gen g(mix_seed(seed ^ ph, idx * 2654435761ULL + 17));
+        // C12: the first C12_ENUM indices enumerate single faults over base plans (256 variants per base plan)
+        bool c12e = prop == "C12" && idx < gen_enum_count(prop);
+        Gen g(mix_seed(seed ^ ph, (c12e ? (idx / 256) + (1ULL << 40) : idx) * 2654435761ULL + 17));
         knobs_for(prop, g.K, g.r);
         g.p.prop = prop;
         g.p.seed = seed;
@@ -1413,7 +1450,9 @@ Plan gen_plan(const std::string &prop, uint64_t seed, uint64_t idx, int qcap)
                 g.gen_c07(qcap, idx);
         } else {
                 g.gen_world(qcap);
-                if (prop == "C12")
+                if (c12e)
+                        g.gen_ops_c12_enum(idx % 256);
+                else if (prop == "C12")
                         g.gen_ops_c12();
                 else if (prop == "C20")
                         g.gen_ops_c20();
